@@ -170,6 +170,74 @@ func (m *BinaryModel) ResolveDependencies() {
 	for _, packet := range m.Packets {
 		m.resolvePacketFields(packet)
 	}
+	m.rejectRecursivePackets()
+}
+
+// packetEdge is a reference from one packet to another, with the place it is written.
+type packetEdge struct {
+	target string
+	line   int
+	column int
+}
+
+// packetEdges lists the packets a packet contains through object fields (also inside inline
+// objects) and match pairs.
+func packetEdges(packet *Packet) []packetEdge {
+	var edges []packetEdge
+	for _, field := range packet.Fields {
+		switch attr := field.Attr.(type) {
+		case *ObjectFieldAttribute:
+			if attr.IsIner {
+				if attr.RefPacket != nil {
+					edges = append(edges, packetEdges(attr.RefPacket)...)
+				}
+			} else {
+				edges = append(edges, packetEdge{attr.PacketName, field.Line, field.Column})
+			}
+		case *MatchFieldAttribute:
+			for _, pair := range attr.MatchPairs {
+				edges = append(edges, packetEdge{pair.Value, pair.Line, pair.Column})
+			}
+		}
+	}
+	return edges
+}
+
+// rejectRecursivePackets reports packets that contain themselves, directly or through other
+// packets: the generators walk the packet graph recursively and would never terminate.
+func (m *BinaryModel) rejectRecursivePackets() {
+	const (
+		unvisited = iota
+		inProgress
+		done
+	)
+	state := make(map[string]int)
+	var visit func(packet *Packet)
+	visit = func(packet *Packet) {
+		state[packet.Name] = inProgress
+		for _, edge := range packetEdges(packet) {
+			target, exists := m.PacketsMap[edge.target]
+			if !exists {
+				continue
+			}
+			switch state[target.Name] {
+			case inProgress:
+				m.AddSyntaxError(&SyntaxError{
+					Line:   edge.line,
+					Column: edge.column,
+					Msg:    "Recursive packet definition: " + packet.Name + " contains " + target.Name + ", which contains " + packet.Name,
+				})
+			case unvisited:
+				visit(target)
+			}
+		}
+		state[packet.Name] = done
+	}
+	for _, packet := range m.Packets {
+		if state[packet.Name] == unvisited {
+			visit(packet)
+		}
+	}
 }
 
 // resolvePacketFields links object fields to the packets they name, including the fields of
